@@ -491,6 +491,11 @@ impl ElementRaw {
             wrapped_parent = parent.0.read().parent.clone();
         }
 
+        // a removed element has lost its content (including its SHORT-NAME); copying it would create an invalid, nameless element
+        if matches!(other.0.read().parent, ElementOrModel::None) {
+            return Err(AutosarDataError::ItemDeleted);
+        }
+
         // Arc overrides clone() so that it only manipulates the reference count, so a separate deep_copy operation is needed here.
         // Additionally, implementing this manually provides the opportunity to filter out
         // elements that are not compatible with the version of the current file.
